@@ -1898,14 +1898,19 @@ class CodeGenerator(NodeVisitor):
                 self.write("))")
 
     def visit_Slice(self, node: nodes.Slice, frame: Frame) -> None:
-        if node.start is not None:
-            self.visit(node.start, frame)
-        self.write(":")
-        if node.stop is not None:
-            self.visit(node.stop, frame)
-        if node.step is not None:
-            self.write(":")
-            self.visit(node.step, frame)
+        # a slice object rather than the "start:stop" syntax, that is only
+        # valid directly in a subscript, not in a tuple of subscripts
+        self.write("slice(")
+
+        for part in (node.start, node.stop, node.step):
+            if part is not None:
+                self.visit(part, frame)
+            else:
+                self.write("None")
+
+            self.write(", ")
+
+        self.write(")")
 
     @contextmanager
     def _filter_test_common(
